@@ -129,3 +129,42 @@ def panics(ctx, rule):
                 ctx.note(rule, c.where(), 'sweep: %s in %s aborts the run when %s fails' % (c.path.rsplit('::', 1)[-1], b.path, what))
     ctx.stats[rule + ':sweep-unwrap-sites'] = n
     ctx.stats[rule + ':sweep-unwrap-on-external-data'] = hits
+
+
+# Two looks at one path, the second one taken because the first said "not there": whatever is concluded from their disagreement races with every
+# other thread and process that creates or removes the path (D101: a directory created by another worker between metadata() and symlink_metadata()
+# was taken for a dangling link).  Listed as NOTE in the thorough tier.
+STAT_CALLS = (r'^std::path::Path::(exists|try_exists|metadata|symlink_metadata|is_file|is_dir|is_symlink)$|^std::fs::(metadata|symlink_metadata|exists)$|'
+              r'path::Path::(canonicalize)$|FileMetadata::new$|FileId::new$')
+
+
+def double_stat(ctx, rule):
+    from .analysis import result_tests, base_named_local
+    n = 0
+    hits = 0
+    for b in ctx.lib.bodies.values():
+        if is_test(b) or '/.cargo/' in b.file:
+            continue
+        stats = b.calls(STAT_CALLS)
+        if len(stats) < 2:
+            continue
+        n += 1
+        for c1 in stats:
+            t1 = result_tests(b, c1)
+            for sw_bb, t_ in t1.items():
+                for c2 in stats:
+                    if c2.bb == c1.bb or not b.dominates(t_['err'], c2.bb):
+                        continue
+                    def named(c):
+                        sl = backslice(b, c.args[:1])
+                        return {b.local_name(l) for l in sl.locals if b.local_name(l)} - {'self'}
+                    same = named(c1) & named(c2)
+                    # an ancestor of the path is another path
+                    if backslice(b, c1.args[:1]).has_call(r'::parent$') != backslice(b, c2.args[:1]).has_call(r'::parent$'):
+                        same = set()
+                    if same:
+                        hits += 1
+                        ctx.note(rule, c2.where(), 'sweep: `%s` is examined again (%s) on the path where %s said it is not there, in %s: a conclusion drawn from the two answers races with whoever creates the path'
+                                 % (sorted(same)[0], c2.path.rsplit('::', 1)[-1], c1.path.rsplit('::', 1)[-1], b.path))
+    ctx.stats[rule + ':sweep-bodies-with-two-stats'] = n
+    ctx.stats[rule + ':sweep-double-stat'] = hits
